@@ -1,7 +1,7 @@
 (* Float round trip, part 5: the printer's float text (ast FloatNode.String: strconv 'g' -1, with ".0"
    appended when the text has neither '.' nor 'e') reads back as the float printed.  This is what used to
    be the hypothesis float_ok of the round-trip theorems of C17 and C01. *)
-From Soy Require Import Model.Bytes Model.Num Model.NumLit Model.AstPrint Spec.ExprSyntax Proofs.FloatRtMain.
+From Soy Require Import Model.Bytes Model.Num Model.NumLit Model.AstPrint Spec.ExprSyntax Proofs.FloatRtText Proofs.FloatRtMain.
 Open Scope N_scope.
 
 Theorem fl_print_parse (f : fl) (s : bstr) :
@@ -9,7 +9,16 @@ Theorem fl_print_parse (f : fl) (s : bstr) :
 Proof.
   intros Hn Hs. unfold fl_print in Hs. destruct (fl_to_string f) as [t|] eqn:Et; [|discriminate].
   injection Hs as <-. destruct (fl_to_string_parse f t Hn Et) as [A B]. unfold has_dot_or_e.
-  destruct (mem 46 t || mem 101 t)%bool; [exact A|]. destruct B as [B|B]; [discriminate|exact B].
+  destruct B as [[B _]|(B & C & _)]; rewrite B; [exact A|exact C].
+Qed.
+
+(* and it is a float text: digits, then a fraction or an exponent *)
+Theorem fl_print_shape (f : fl) (s : bstr) :
+  fl_finite_norm f -> fl_print f = Some s -> rt_shape s.
+Proof.
+  intros Hn Hs. unfold fl_print in Hs. destruct (fl_to_string f) as [t|] eqn:Et; [|discriminate].
+  injection Hs as <-. destruct (fl_to_string_parse f t Hn Et) as [A B]. unfold has_dot_or_e.
+  destruct B as [[B C]|(B & _ & C)]; rewrite B; exact C.
 Qed.
 
 (* the printer model prints every float of the model, and no other finite float in normal form *)
